@@ -107,7 +107,7 @@ package cisco
 //vc:  requires[C02] @insertIndexBelowStep 0 <= i && i < 9999 && 0 <= before
 //vc:  init moveEmitted = false
 //vc:  assign after "addACL(b, before, i)" moveEmitted = true
-//vc:  ensures[C02] @suppressedOnlyNextToOwnBlock !moveEmitted ==> moveOK && ((before > 0 && idx2Block[before - 1] == idx2Block[a.pos]) || (before < len(idx2Block) && idx2Block[before] == idx2Block[a.pos]))
+//vc:  ensures[C02,C14] @suppressedOnlyNextToOwnBlock !moveEmitted ==> moveOK && ((before > 0 && idx2Block[before - 1] == idx2Block[a.pos]) || (before < len(idx2Block) && idx2Block[before] == idx2Block[a.pos]))
 
 // runUniform: specification state of the current insert run - every line read
 // so far has the action of the first one (actions are read before the line is
@@ -119,5 +119,5 @@ package cisco
 //vc:  assert[C02] at "del = append(del, &cmdPos)" @deleteEntryRecordsOwnLine cmdPos.cmd == a && cmdPos.pos == r.LowA + i && 0 <= cmdPos.pos && cmdPos.pos < len(al) && al[cmdPos.pos] == a
 //vc:  assign at "action0 := getIOSAction(bl[r.LowB])" runUniform = true
 //vc:  assign at "action0 == getIOSAction(b)" runUniform = runUniform && strings.Cut(b.parsed, " ") == action0
-//vc:  invariant[C02] 6 "for i, b := range bl[r.LowB:r.HighB]" @moveOKMeansUniformRun -1 <= rangeindex && moveOK == runUniform
-//vc:  assert[C02] at "moveACL(cmdPos, b, r.LowA, i, moveOK)" @moveSuppressibleOnlyInUniformRun moveOK ==> runUniform
+//vc:  invariant[C02,C14] 6 "for i, b := range bl[r.LowB:r.HighB]" @moveOKMeansUniformRun -1 <= rangeindex && moveOK == runUniform
+//vc:  assert[C02,C14] at "moveACL(cmdPos, b, r.LowA, i, moveOK)" @moveSuppressibleOnlyInUniformRun moveOK ==> runUniform
